@@ -172,20 +172,22 @@ CONFIG = {
         "jobs": [{"name": "worker", "test": "TestC17Worker", "steps": 30, "checks": {"quick": 16000, "thorough": 4000000}, "shards": {"quick": 8, "thorough": 16}, "env": {"VKIT_PROFILE": "C17"}}],
     },
     "C20": {
-        "rule": ("rapid stepper over LinearAttempt in a synctest bubble (virtual time): count 1-6, rate in {1ns,1ms,1s}, context cancellable/deadline/Err-only/pre-cancelled/background, "
+        "rule": ("(free) free-running programs in a bubble: a receiver whose pauses are whole or half multiples of the rate (its wake-ups tie with ticks, so receive and non-blocking send race on real processors while the virtual clock stands still), optional cancellation after a drawn number of receives; never more than count values, exactly count when never cancelled, non-decreasing virtual timestamps, at most two values after cancellation, producer gone. " + "rapid stepper over LinearAttempt in a synctest bubble (virtual time): count 1-6, rate in {1ns,1ms,1s}, context cancellable/deadline/Err-only/pre-cancelled/background, "
                  "receiver policy prompt/every-k/stop-after-j/parked/absent/free, cancellation at a drawn instant incl. exactly on a tick (timer tie), just before/after, mid-interval, before the "
                  "call, after close; invalid inputs must panic. Oracle: first value immediately (len==1 on return, closed+empty if pre-cancelled), <= count values, exact non-decreasing tick "
                  "timestamps, <=1 buffered at every quiescent point, closed after the count-th value or at the first quiescent point after cancellation, <=1 tick forwarded after cancel, "
                  "producer goroutine gone (leak oracle). non-trivial = count>=3, cancellation while the producer is alive and a value still buffered at that instant; distinct = hash of the case."),
-        "jobs": [{"name": "attempt", "test": "TestC20Attempt", "steps": 12, "checks": {"quick": 16000, "thorough": 2400000}, "shards": {"quick": 8, "thorough": 16}, "env": {"VKIT_PROFILE": "C20"}}],
+        "jobs": [{"name": "attempt", "test": "TestC20Attempt", "steps": 12, "checks": {"quick": 16000, "thorough": 2400000}, "shards": {"quick": 8, "thorough": 16}, "env": {"VKIT_PROFILE": "C20"}},
+                 {"name": "attempt_free", "test": "TestC20Free", "checks": {"quick": 4000, "thorough": 600000}, "shards": {"quick": 4, "thorough": 16}}],
     },
     "C14": {
-        "rule": ("rapid stepper over bigbuff.Workers in a synctest bubble: rules call(count 1-4, gated task returning a unique value/error; also via Wrap), release(task), wait (launched), "
+        "rule": ("(free) free-running programs in a bubble: 2-6 callers x 2-12 invocations through Call with an own function or through 1-2 shared Wrap wrappers (one function serving overlapping invocations); oracle = bijection between invocations and executions (value and error of one finished execution each, none returned twice, own function for Call), concurrency bound checked inside the functions, Wait/Count afterwards. The stepper also bounds overtaking: a call seen queued at a quiescent point may not be passed by more than 8 calls made after that point. " + "rapid stepper over bigbuff.Workers in a synctest bubble: rules call(count 1-4, gated task returning a unique value/error; also via Wrap), release(task), wait (launched), "
                  "burst (2-6 actions without settling, drawn Gosched) and storm (4-12 concurrent callers with self-yielding tasks); oracle at every quiescent point: each task starts once, "
                  "Call returns exactly its task's result and only after it finished, running <= largest count requested so far, Count()==running, no starvation (a queued task runs whenever "
                  "nothing holds it back; stranded queue = violation), Wait pending while anything is queued/running and returning afterwards with Count()==0, leak check. "
                  "non-trivial = a Call with a smaller count than the previous Call arrived while >=1 task was queued; distinct = hash of the op trace."),
-        "jobs": [{"name": "workers", "test": "TestC14Workers", "checks": {"quick": 12000, "thorough": 1200000}, "shards": {"quick": 8, "thorough": 16}, "env": {"VKIT_PROFILE": "C14"}}],
+        "jobs": [{"name": "workers", "test": "TestC14Workers", "checks": {"quick": 12000, "thorough": 1200000}, "shards": {"quick": 8, "thorough": 16}, "env": {"VKIT_PROFILE": "C14"}},
+                 {"name": "workers_free", "test": "TestC14Free", "checks": {"quick": 6000, "thorough": 600000}, "shards": {"quick": 4, "thorough": 16}, "stall_sig": "C14/stall"}],
     },
     "C18": {
         "rule": ("rapid stepper in a synctest bubble (virtual time) over ExponentialRetry/FatalError: one closure invoked 1-3 times on one context; operation = gated harness callback "
